@@ -27,6 +27,16 @@ CHECKS = {
         "(keys 1..64 bytes, 3 algorithms, digits 6..10, periods 1..3600, times to 2^40 in int/float/datetime forms) are re-computed by the spec.",
    note="Trusted: TLC, Totp.tla, stdlib hmac/hashlib for the HMAC digest fed to the spec (passlib's own HMAC is C11's subject).",
    technique="TLA+ spec (Totp.tla Generate) model-checked with TLC + trace validation of recorded generate() calls + digest injection replay"),
+ "C03": dict(cat=MC, design="DESIGN.md §3 C03",
+   text="Backend.tla models backend selection (set/has/get/lazy load on first hash, dry runs, inherit-until-set vs shared-owner "
+        "disciplines over root/child/grandchild classes); TLC checks availability=>selectable, dry runs pure, set-then-get, frame "
+        "conditions for each real family configuration (order from the class, availability probed without passlib); simulated "
+        "behaviours are replayed on the real global hashers in freshly forked processes comparing outcome and effective backends after "
+        "every step; digests of a key sweep from every selectable backend and from libxcrypt / bcrypt-C / hashlib.scrypt are validated "
+        "as one function key->digest by Trace_Backend.",
+   note="Trusted: TLC, Backend.tla, libxcrypt/bcrypt-C/hashlib as independent providers; effective backend observed through the "
+        "class's private __backend slot (projection only). Host dependent: argon2 and the 'scrypt' package are absent here.",
+   technique="TLA+ spec (Backend.tla) model-checked with TLC + spec-to-implementation replay in fresh processes + digest trace validation"),
 }
 PENDING = {}
 props = [json.loads(l) for l in open(os.path.join(HERE, "properties.jsonl"))]
